@@ -31,7 +31,7 @@ class Prover:
     def witness(self, what=""):
         """the asserted point is reached with the assumptions: must be sat"""
         t0 = time.time()
-        self.s.set("timeout", self.timeout_ms)
+        self.s.set("timeout", max(self.timeout_ms, 30000))
         r = self.s.check()
         self.queries += 1
         self.solver_s += time.time() - t0
